@@ -7,6 +7,7 @@ kill-after-producers-done-delay, check-producer-output, producer output pattern,
 schedule_next_instance (line-level preemption via sys.settrace), optionally an external kill() at each of those positions.
 """
 import itertools
+import os
 
 from verif.core.runner import HarnessError, canon
 
@@ -21,7 +22,10 @@ RULE = ('case = (repeatRetries, kill-after-producers-done-delay, check-producer-
         'Part B: observers inside the real controller stage loop (same-stage / cross-stage / two subjects in both listing orders / '
         'mixed; producers that write output at launch+exit or only at exit; long and short producers), canonical schedule and all '
         '1-deviation schedules for the two-subject observer, judged from the event log (no launch before every same-stage producer '
-        'has output, final output observed). distinct = distinct (case, k); non-trivial = the event landed while the engine was alive.')
+        'has output, final output observed). Part C (model conformance): parts A and B replace WorkingDirectory.output / outputSinceDate by a '
+        'virtual log; every history of <=4 (thorough 6) file operations {new, rewrite in place, delete} x 2 files + in-place updates of '
+        'an input, with explicit modification times, is executed in a real directory and the REAL listing functions are compared with '
+        'the model at every time boundary. distinct = distinct (case, k); non-trivial = the event landed while the engine was alive.')
 ASSUMPTIONS = [
     'controlled-runtime assumptions of C01; producer output is a virtual log consulted through WorkingDirectory.output*',
     'the notification is delivered by calling RepeatingEngine.notify_all_producers_finished() (what ComponentState._notifyProducersFinished '
@@ -394,6 +398,114 @@ def worker_b(col, item, tier, seed):
             run_b_one(col, scn, [0] * i + [alt])
 
 
+# ------------------------------------------------------------------ part C: the virtual output listing vs the real code
+# Parts A and B replace WorkingDirectory.output / outputSinceDate by a virtual log (a file counts as output since `date` iff its
+# last modification is later than `date`). Part C binds that model to the implementation: every history of file operations in a
+# real working directory, with modification times set explicitly, queried at every time boundary.
+def c_histories(thorough):
+    files = ['a.out', 'b.out']
+    ops = [('new', f) for f in files] + [('rewrite', f) for f in files] + [('del', f) for f in files] + [('touch-input', 'in.dat')]
+    depth = 6 if thorough else 4
+
+    def rec(hist, present):
+        if hist:
+            yield list(hist)
+        if len(hist) == depth:
+            return
+        for op, f in ops:
+            if op == 'new' and f in present:
+                continue
+            if op in ('rewrite', 'del') and f not in present:
+                continue
+            np_ = set(present)
+            if op == 'new':
+                np_.add(f)
+            elif op == 'del':
+                np_.discard(f)
+            hist.append([op, f])
+            yield from rec(hist, np_)
+            hist.pop()
+
+    yield from rec([], set())
+
+
+def run_c_case(col, hist):
+    """Executes the history on a real directory (times T0+10k), then queries the REAL listing functions at every boundary."""
+    import datetime, shutil, tempfile
+    from verif.vsched import harness as h
+    h.install()
+    import experiment.model.storage as storage
+    T0 = 1.7e9
+    d = tempfile.mkdtemp(prefix='c13c-', dir='/dev/shm')
+    WD = storage.WorkingDirectory
+    patched = (WD.output, WD.outputSinceDate, WD.isUpdatedSinceDate)
+    # the real functions call each other through the class: put all of them back while this case runs
+    WD.output, WD.outputSinceDate, WD.isUpdatedSinceDate = (h.ORIG_WD['output'], h.ORIG_WD['outputSinceDate'],
+                                                            h.ORIG_WD['isUpdatedSinceDate'])
+    try:
+        inp = os.path.join(d, 'in.dat')
+        open(inp, 'w').write('input')
+        os.utime(inp, (T0 - 100, T0 - 100))
+        os.utime(d, (T0 - 100, T0 - 100))
+        wd = storage.WorkingDirectory(d)   # existing files are inputs
+        mt = {}
+        for k, (op, f) in enumerate(hist):
+            t = T0 + 10 * (k + 1)
+            path = os.path.join(d, f)
+            dir_m = os.path.getmtime(d)
+            if op == 'new':
+                open(path, 'w').write('v%d' % k)
+                os.utime(path, (t, t))
+                os.utime(d, (t, t))          # a new directory entry changes the directory
+                mt[f] = t
+            elif op in ('rewrite', 'touch-input'):
+                with open(path, 'r+') as fh:  # in place: no directory entry changes
+                    fh.write('w%d' % k)
+                os.utime(path, (t, t))
+                os.utime(d, (dir_m, dir_m))
+                if op == 'rewrite':
+                    mt[f] = t
+            else:
+                os.remove(path)
+                os.utime(d, (t, t))
+                mt.pop(f, None)
+        got_out = sorted(os.path.basename(x) for x in wd.output)
+        bad = []
+        if got_out != sorted(mt):
+            bad.append(('WorkingDirectory.output lists %r, the directory holds the outputs %r (inputs: in.dat)' % (got_out, sorted(mt)),
+                        'C13:C:output-listing'))
+        for q in range(0, len(hist) + 1):
+            date = datetime.datetime.fromtimestamp(T0 + 10 * q + 5)
+            want = sorted(f for f, t in mt.items() if datetime.datetime.fromtimestamp(t) > date)
+            got = sorted(os.path.basename(x) for x in wd.outputSinceDate(date))
+            col.evaluated()
+            col.transitions += 1
+            col.outcome('C:since=%d' % len(got))
+            col.nontriv({'C': hist, 'q': q})
+            if got != want:
+                bad.append(('outputSinceDate(after operation %d of %r) = %r but the files modified later are %r' % (q, hist, got, want),
+                            'C13:C:output-since-date:%s' % ('missed' if set(want) - set(got) else 'extra')))
+            for f in ('a.out', 'b.out', 'in.dat'):
+                g = bool(wd.isUpdatedSinceDate(date, os.path.join(d, f)))
+                w = f in want
+                if g != w:
+                    bad.append(('isUpdatedSinceDate(%s, after operation %d of %r) = %r, expected %r' % (f, q, hist, g, w),
+                                'C13:C:is-updated-since-date'))
+        seen = set()
+        for why, sig in bad:
+            if sig not in seen:
+                seen.add(sig)
+                col.fail({'part': 'C', 'history': hist}, why, {'mtimes': {f: t - T0 for f, t in mt.items()}}, sig=sig)
+    finally:
+        WD.output, WD.outputSinceDate, WD.isUpdatedSinceDate = patched
+        shutil.rmtree(d, ignore_errors=True)
+
+
+def worker_c(col, item, tier, seed):
+    for hist in item:
+        run_c_case(col, hist)
+
+
 def worker(col, item, tier, seed):
     try:
         for combo in item:
@@ -427,6 +539,9 @@ def run(ctx):
     ctx.count('controller_level_scenarios_with_all_1_deviation_schedules', len(deep))
     ctx.pmap('verif.props.c13', 'worker_b', items, maxtasksperchild=4)
     ctx.payload = []
+    hs = list(c_histories(ctx.thorough))
+    ctx.count('output_listing_conformance_histories', len(hs))
+    ctx.pmap('verif.props.c13', 'worker_c', [hs[i:i + 40] for i in range(0, len(hs), 40)], maxtasksperchild=8)
     cs = list(combos(ctx.thorough))
     ctx.count('combos', len(cs))
     items = [[c] for c in cs]
@@ -436,6 +551,9 @@ def run(ctx):
 
 
 def replay(ctx, case):
+    if case.get('part') == 'C':
+        run_c_case(ctx, case['history'])
+        return
     if case.get('part') == 'B':
         run_b_one(ctx, case['scenario'], case['choices'])
         return
